@@ -92,6 +92,18 @@ func (q *Queue) C14Truth() []arvados.Container {
 	return append([]arvados.Container(nil), q.Containers...)
 }
 
+// C14TruthOf returns the API server's record of one container.
+func (q *Queue) C14TruthOf(uuid string) (arvados.Container, bool) {
+	q.mtx.Lock()
+	defer q.mtx.Unlock()
+	for _, ctr := range q.Containers {
+		if ctr.UUID == uuid {
+			return ctr, true
+		}
+	}
+	return arvados.Container{}, false
+}
+
 // C14Mutate atomically applies fn to the API server's record of the given
 // container, like an API client other than the dispatcher would. The
 // update is refused (false) when fn returns false or the state transition
